@@ -48,11 +48,15 @@ deriving Repr, Inhabited
 
 def foldc (c : Nat) : Nat := if 0x41 ≤ c ∧ c ≤ 0x5A then c + 32 else c
 
+def litOk (src v : List Nat) (cs : Bool) : Bool :=
+  if cs then src == v else src.map foldc == v.map foldc
+
 def litEval (s : Src) (v : List Nat) (cs : Bool) (i : Nat) : Res :=
   if i ≤ s.length then
-    let src := (s.drop i).take v.length
-    let ok := if cs then src == v else src.map foldc == v.map foldc
-    if ok then .ok [⟨[.leaf src i src.length], i + src.length⟩] else .fail
+    if litOk ((s.drop i).take v.length) v cs then
+      .ok [⟨[.leaf ((s.drop i).take v.length) i ((s.drop i).take v.length).length],
+            i + ((s.drop i).take v.length).length⟩]
+    else .fail
   else .fail
 
 def rangeEval (s : Src) (lo hi : Nat) (i : Nat) : Res :=
@@ -132,6 +136,25 @@ def repEval (p : Nat → Res) (min : Nat) (max : Option Nat) (loopFuel : Nat) (i
   | .ok ms => repLoop p max loopFuel min ms ms
   | r => r
 
+def filtOpt (keep : Match → Option Bool) : List Match → List Match → Option (List Match)
+  | [], acc => some acc
+  | m :: ms, acc =>
+    match keep m with
+    | none => none
+    | some true => filtOpt keep ms (acc ++ [m])
+    | some false => filtOpt keep ms acc
+
+def exclChk (r : Res) (len : Nat) : Option Bool :=
+  match r with
+  | .ok xs => some (! xs.any (fun y => y.stop == len))
+  | .fail => some true
+  | _ => none
+
+def wrapRule (name : String) (ms : List Match) : Res :=
+  let kept := dedup ms []
+  if kept.isEmpty then .fail
+  else .ok (kept.map (fun m => ⟨[.node name m.nodes], m.stop⟩))
+
 def lparse (G : Grammar) : Nat → Src → Expr → Nat → Res
   | 0, _, _, _ => .oof
   | f + 1, s, e, i =>
@@ -151,28 +174,11 @@ def lparse (G : Grammar) : Nat → Src → Expr → Nat → Res
         | some d =>
           match lparse G f s d i with
           | .ok ms =>
-            -- exclusion filter
-            let keepM : Match → Option Bool := fun m =>
-              match info.excl with
-              | none => some true
-              | some x =>
-                let t := m.text
-                match lparse G f t (.ref x) 0 with
-                | .ok xs => some (! xs.any (fun y => y.stop == t.length))
-                | .fail => some true
-                | _ => none
-            let rec filt : List Match → List Match → Option (List Match)
-              | [], acc => some acc
-              | m :: ms, acc => match keepM m with
-                | none => none
-                | some true => filt ms (acc ++ [m])
-                | some false => filt ms acc
-            match filt ms [] with
+            match filtOpt (fun m => match info.excl with
+                | none => some true
+                | some x => exclChk (lparse G f m.text (.ref x) 0) m.text.length) ms [] with
             | none => .oof
-            | some kept =>
-              let kept := dedup kept []
-              if kept.isEmpty then .fail
-              else .ok (kept.map (fun m => ⟨[.node info.name m.nodes], m.stop⟩))
+            | some kept => wrapRule info.name kept
           | r => r
 
 end Abnf
